@@ -1688,9 +1688,10 @@ def run(ctx):
                    "with `;` / `,` lists, FILTER expressions (|| && ! parentheses, comparisons, function calls, arithmetic), BIND, VALUES, GRAPH, UNION chains, "
                    "sub-selects, optional `.`, nested group patterns, SELECT with DISTINCT / projection / aggregates / FROM / FROM NAMED / GROUP BY / ORDER BY / LIMIT, "
                    "the six update forms with quad blocks and GRAPH templates (plus rejection theorems for the DATA-block checks), the PREFIX prologue and the "
-                   "whole request up to end of input through parse_top, with the fuel of Run.v. NOT proved, checked by the tree and follower streams only: "
-                   "exponent numbers, literals with @lang / ^^datatype, long strings, quoted triples and bare identifiers as terms; a parenthesised FILTER "
-                   "expression starting with a function call whose name is followed by a non-ASCII whitespace character",
+                   "whole request up to end of input through parse_top, with the fuel of Run.v. Exponent numbers, @lang / ^^datatype literals, long strings, "
+                   "one-level quoted triples and ASCII bare identifiers are proved at scanner / term-position level only (not yet part of the CST Term type). "
+                   "NOT proved, checked by the tree and follower streams only: nested quoted triples, long strings containing their own quote unescaped, "
+                   "non-ASCII bare identifiers, a parenthesised FILTER expression starting with a function call whose name is followed by a non-ASCII whitespace character",
                    "extension grammars (RULE, REGISTER/RSP-QL, ML.PREDICT, MODEL / NEURAL RELATION, legacy parse_where): not modelled, totality exercised by the mutant stream only",
                    "fuel adequacy is proved for arbitrary input (C16_fuel_adequate, C16_parser_total_no_fuel): 3 * length + 6 units suffice for every grammar entry",
                    "panic-freedom of the real code is a runtime fact tied to the model by the correspondence check only"]})
